@@ -2919,8 +2919,7 @@ class Set(Collection):
         if cache is None or not cache.is_alive: throw_db_session_is_over('load collection', obj, attr)
         assert obj._status_ not in del_statuses
         setdata = obj._vals_.get(attr)
-        if setdata is None: setdata = obj._vals_[attr] = SetData()
-        elif setdata.is_fully_loaded and not attr.is_volatile:
+        if setdata is not None and setdata.is_fully_loaded and not attr.is_volatile:
             return setdata
         entity = attr.entity
         reverse = attr.reverse
@@ -2928,6 +2927,8 @@ class Set(Collection):
         database = obj._database_
         if cache is not database._get_cache():
             throw(TransactionError, "Transaction of object %s belongs to different thread")
+        # (only now: a call that is refused because the object belongs to another thread must not touch that object)
+        if setdata is None: setdata = obj._vals_[attr] = SetData()
 
         if items:
             if not reverse.is_collection:
